@@ -38,6 +38,10 @@ def pools(tier):
         P["MG-lab4xreps"] = (lab4, reps4, MODES, [(False, False)])
     st = list(U.stars(5 if tier == "quick" else 6))
     P["stars"] = (st, st, ("default", "all-equal"), [(False, False), (True, False)])
+    ex = list(U.stars_extra()) + [g for g in st if len(g.atoms) == 4]
+    P["stars-extra"] = (ex, ex + [g for g in st if len(g.atoms) in (5, 6, 7)][::5], ("default", "all-equal"), [(False, False), (True, False)])
+    sr = [g for _, g in U.symmetric_reactions()][::4]
+    P["symmetric-reactions"] = (sr, sr, ("default",), [(False, False)])
     tu = list(U.two_unit())
     P["two-unit"] = (tu, tu, ("default", "all-equal"), [(False, False), (True, False)])
     sc = [g for g in U.scrg_universe("quick" if tier == "quick" else "thorough")]
@@ -99,7 +103,7 @@ def run_item(item):
     if item.get("symnum"):
         return _symnum(item, out)
     rows, cols, modes, flags = pools(tier)[item["pool"]]
-    shift = 10 if item["pool"] in ("SCRG", "stars", "two-unit", "symmetric") else 0
+    shift = 10 if item["pool"] in ("SCRG", "stars", "stars-extra", "two-unit", "symmetric", "symmetric-reactions") else 0
     cols2 = [(g.copy().relabel({x: x + shift for x in g.atoms}) if shift else g) for g in cols]
     rcols = [U.build(g) for g in cols2]
     for i in range(item["lo"], item["hi"]):
